@@ -4,6 +4,9 @@ import BoltonsVerif.C19.Model
 C19 line protocol.  One line = one case.
   sl <cps>                     iter_splitlines(text)      -> `<lines>|<lines of str.splitlines>`
   rl <hex> <bs>                reverse_iter_lines(content, blocksize) -> lines (hex)
+  rf <hex> <pos> <bs>          reverse_iter_lines(content, blocksize, preseek=False) with the file position at pos
+  in <cps> <cps> <cps> <key>   indent(text, margin, newline, key) with key = bool (the default) / all (always true)
+                               -> text (code points)
   jl <b|t> <0|1> <hex>         JSONLIterator forward (binary / text-mode file) and reverse,
                                ignore_errors 0/1 -> `F<objs>[!Err] R<objs>[!Err]`
   tbl                          the generated tables
@@ -137,6 +140,18 @@ def handle (line : String) : String :=
     match hex? c, bs.toNat? with
     | some c, some bs => if bs = 0 then "bad-op" else showLines showHex (reverseIterLines c bs)
     | _, _ => "bad-op"
+  | ["rf", c, pos, bs] =>
+    match hex? c, pos.toNat?, bs.toNat? with
+    | some c, some pos, some bs =>
+      if bs = 0 then "bad-op" else showLines showHex (reverseIterLinesFrom c pos bs)
+    | _, _, _ => "bad-op"
+  | ["in", t, m, nl, key] =>
+    match cps? t, cps? m, cps? nl with
+    | some t, some m, some nl =>
+      if key = "bool" then showCps (indent keyBool m nl t)
+      else if key = "all" then showCps (indent (fun _ => true) m nl t)
+      else "bad-op"
+    | _, _, _ => "bad-op"
   | ["jl", mode, ign, c] =>
     match hex? c with
     | some c =>
@@ -149,7 +164,8 @@ def handle (line : String) : String :=
       "F" ++ showRun fwd ++ " R" ++ showRun rev
     | none => "bad-op"
   | ["tbl"] =>
-    "E" ++ showLines showCps Generated.lineEndings
+    "E" ++ showLines showCps Generated.lineEndings ++ " L" ++ showCps Generated.lstripSet
+      ++ " R" ++ showCps Generated.rstripSet
   | _ => "bad-op"
 
 end C19.Driver
